@@ -30,19 +30,25 @@ EncTransport(t, plen) ==
          LET hd == CASE t.v = "echo" -> <<8, 0>> [] t.v = "ts" -> <<13, 0>> [] t.v = "tsr" -> <<14, 0>>
                      [] t.v = "tscode" -> <<13, 1>> [] t.v = "unk" -> <<99, 3>>
          IN <<IP_ICMP, hd \o <<18, 52, 0, 1, 0, 2>> \o pl>>
-    [] t.k = "icmp6" -> <<IP_ICMP6, <<IF t.v = "echo" THEN 128 ELSE 135, 0, 18, 52, 0, 1, 0, 2>> \o pl>>
+    [] t.k = "icmp6" ->
+         IF t.v = "echo" THEN <<IP_ICMP6, <<128, 0, 18, 52, 0, 1, 0, 2>> \o pl>>
+         ELSE IF t.v = "ns" THEN <<IP_ICMP6, <<135, 0, 18, 52, 0, 1, 0, 2>> \o pl>>
+         \* router solicitation followed by neighbour discovery options: ok (1 unit), zero units, 32 units (256 bytes announced), 255 units
+         ELSE <<IP_ICMP6, <<133, 0, 18, 52, 0, 0, 0, 0>> \o
+                          (CASE t.v = "rs1" -> <<1, 1, 1, 2, 3, 4, 5, 6>> [] t.v = "rs0" -> <<1, 0, 1, 2, 3, 4, 5, 6>>
+                             [] t.v = "rs32" -> <<4, 32>> \o Pat(14, 3) [] t.v = "rs255" -> <<5, 255, 0, 0, 0, 0, 5, 220>>) \o pl>>
     [] t.k = "raw" -> <<t.n, pl>>                                   \* t.n = ip number, nothing the crate decodes
 
 \* ---- authentication header / IPv6 extension headers ----------------------------
 \* x \in {"ok", "zero" (payload len 0), "cut" (truncated to 10 bytes), "big" (announces 4 bytes more)}
-EncAuth(next, x) ==
+RcAuth(next, x) ==
   LET full == <<next, 2, 0, 0, 0, 0, 1, 0, 0, 0, 0, 9, 170, 187, 204, 221>> IN
   CASE x = "ok" -> full [] x = "zero" -> [full EXCEPT ![2] = 0] [] x = "cut" -> SubSeq(full, 1, 10) [] x = "big" -> [full EXCEPT ![2] = 3]
 
 \* e = <<kind, variant>>, kind \in {0, 60, 43, 44, 51, other}; variant \in {"ok","long" (16 bytes),"cut","big","frag","zero"}
 EncExt(e, next) ==
   LET k == e[1]  x == e[2] IN
-  IF k = IP_AUTH THEN EncAuth(next, IF x \in {"ok", "zero", "cut", "big"} THEN x ELSE "ok")
+  IF k = IP_AUTH THEN RcAuth(next, IF x \in {"ok", "zero", "cut", "big"} THEN x ELSE "ok")
   ELSE IF k = IP_FRAG THEN
        LET h == <<next, 0, IF x = "frag" THEN 0 ELSE 0, IF x = "frag" THEN 9 ELSE IF x = "more" THEN 1 ELSE 6, 0, 0, 0, 7>> IN
        IF x = "cut" THEN SubSeq(h, 1, 5) ELSE h
@@ -60,7 +66,7 @@ EncChain(chain, proto, inner) ==
 \* n.k \in {"ipv4","ipv6","arp","other","none"}
 EncNet(n, tr) ==          \* tr = <<ip number, transport bytes>>; returns <<ether type, bytes>>
   CASE n.k = "ipv4" ->
-         LET au == IF n.auth = "none" THEN <<tr[1], tr[2]>> ELSE <<IP_AUTH, EncAuth(tr[1], n.auth) \o tr[2]>>
+         LET au == IF n.auth = "none" THEN <<tr[1], tr[2]>> ELSE <<IP_AUTH, RcAuth(tr[1], n.auth) \o tr[2]>>
              ihl == CASE n.ihl = "ok" -> 5 [] n.ihl = "opt" -> 6 [] n.ihl = "four" -> 4 [] n.ihl = "zero" -> 0 [] n.ihl = "max" -> 15
              hl == IF ihl >= 5 THEN 4 * ihl ELSE 20
              ttl == hl + Len(au[2])
@@ -134,7 +140,7 @@ Transports ==
   {[k |-> "udp", v |-> v, n |-> 0] : v \in {"ok", "zero", "seven", "one", "minus", "plus", "hdr"}}
   \cup {[k |-> "tcp", v |-> v, n |-> 0] : v \in {"ok", "opt", "four", "zero", "max"}}
   \cup {[k |-> "icmp4", v |-> v, n |-> 0] : v \in {"echo", "ts", "tsr", "tscode", "unk"}}
-  \cup {[k |-> "icmp6", v |-> v, n |-> 0] : v \in {"echo", "ns"}}
+  \cup {[k |-> "icmp6", v |-> v, n |-> 0] : v \in {"echo", "ns", "rs1", "rs0", "rs32", "rs255"}}
   \cup {[k |-> "raw", v |-> "raw", n |-> x] : x \in {253, 0, 43, 44, 51, 60, 59}}
 
 V4s ==
